@@ -2083,12 +2083,12 @@ send_rrul(int whither, rrulsp_t rr, size_t ccnt)
 	with (unsigned int m) {
 		bitint_iter_t i = 0UL;
 
-		if (!bui31_has_bits_p(rr->M)) {
+		if (!bui63_has_bits_p(rr->M)) {
 			break;
 		}
-		m = bui31_next(&i, rr->M);
+		m = bui63_next(&i, rr->M);
 		fdprintf(";BYMINUTE=%u", m);
-		while (m = bui31_next(&i, rr->M), i) {
+		while (m = bui63_next(&i, rr->M), i) {
 			fdprintf(",%u", m);
 		}
 	}
@@ -2098,9 +2098,9 @@ send_rrul(int whither, rrulsp_t rr, size_t ccnt)
 		if (!bui63_has_bits_p(rr->S)) {
 			break;
 		}
-		s = bui31_next(&i, rr->S);
+		s = bui63_next(&i, rr->S);
 		fdprintf(";BYSECOND=%u", s);
-		while (s = bui31_next(&i, rr->S), i) {
+		while (s = bui63_next(&i, rr->S), i) {
 			fdprintf(",%u", s);
 		}
 	}
